@@ -1088,7 +1088,18 @@ pub fn check_case(prop: &'static str, defs: &[(&'static dyn DefGlue, &'static dy
     if defs.is_empty() {
         return Ok(CaseInfo::default());
     }
-    let (small, big, info) = &defs[pick(case.def, defs.len())];
+    // the definitions on which the property can be exercised at all
+    let eligible: Vec<usize> = (0..defs.len())
+        .filter(|&k| match prop {
+            "C15" => defs[k].2.has_serde(),
+            "C16" => defs[k].2.has_clone(),
+            _ => true,
+        })
+        .collect();
+    if eligible.is_empty() {
+        return Ok(CaseInfo { nontrivial: false, labels: vec!["no_eligible_definition"], counters: vec![] });
+    }
+    let (small, big, info) = &defs[eligible[pick(case.def, eligible.len())]];
     let def: &dyn DefGlue = if case.big_cap { *big } else { *small };
     let res = run_case(prop, def, info, case);
     let mine: Vec<&Finding> = res.findings.iter().filter(|f| f.prop == prop).collect();
